@@ -25,21 +25,22 @@ func UUID(kind string, n int) string {
 
 // Opts biases world generation.
 type Opts struct {
-	MaxFlows      int      // 1..4
-	MaxNodes      int      // per flow
-	Actions       []string // allowed action types; nil = all valid for the flow type
-	NoWaits       bool
-	QueryGroups   bool     // include query-based groups
-	GroupQueries  []string // pool of group queries (defaults used if nil)
-	Languages     []string // translation languages besides the base "eng"
-	Voice         bool     // allow voice flows
-	Background    bool     // allow messaging_background flows
-	LongTexts     bool     // templates that produce text far beyond the limits
-	Adversarial   bool     // loop-heavy graphs (self loops, A<->B enters, terminal enters)
-	StableContext bool     // router operands/arguments only over context that actions of the same sprint do not change
-	WebhookRefs   bool     // allow @webhook references after a wait (C02 excludes them)
-	Templates     []string // extra templates for action texts
-	ResultNames   []string
+	MaxFlows       int      // 1..4
+	MaxNodes       int      // per flow
+	Actions        []string // allowed action types; nil = all valid for the flow type
+	NoWaits        bool
+	QueryGroups    bool     // include query-based groups
+	GroupQueries   []string // pool of group queries (defaults used if nil)
+	Languages      []string // translation languages besides the base "eng"
+	Voice          bool     // allow voice flows
+	Background     bool     // allow messaging_background flows
+	LongTexts      bool     // templates that produce text far beyond the limits
+	Adversarial    bool     // loop-heavy graphs (self loops, A<->B enters, terminal enters)
+	StableContext  bool     // router operands/arguments only over context that actions of the same sprint do not change
+	WebhookRefs    bool     // allow @webhook references after a wait (C02 excludes them)
+	Templates      []string // extra templates for action texts
+	ResultNames    []string
+	NoVariableRefs bool // no name_match (expression) group/label references
 }
 
 // World is a generated asset document plus the indexes the scenario generator needs.
@@ -203,7 +204,7 @@ func (g *gen) groupRefs(allowMissing bool) []M {
 		switch {
 		case k == 0 && allowMissing:
 			out = append(out, M{"uuid": UUID("group", 99), "name": "Deleted"})
-		case k == 1:
+		case k == 1 && !g.o.NoVariableRefs:
 			out = append(out, M{"name_match": rapid.SampledFrom([]string{"Testers", "@globals.org_name", "@(\"Cust\" & \"omers\")", "Nope"}).Draw(g.t, "namematch")})
 		case k == 2 && len(g.groups) > len(staticGroups):
 			// a query based group (actions must refuse these)
@@ -327,7 +328,7 @@ func (g *gen) action(flowType string, flowUUIDs []string, flowNames []string) M 
 		a["path"] = rapid.SampledFrom([]string{"+250788123456", "@input.text", "bob", "bob@nyaruka.com", "@(1 / 0)", "@fields.nick", "12345", "+250788000111"}).Draw(g.t, "path")
 	case "add_input_labels":
 		l := rapid.SampledFrom(labels).Draw(g.t, "label")
-		if rapid.IntRange(0, 4).Draw(g.t, "labelk") == 0 {
+		if rapid.IntRange(0, 4).Draw(g.t, "labelk") == 0 && !g.o.NoVariableRefs {
 			a["labels"] = []M{{"name_match": rapid.SampledFrom([]string{"Spam", "@globals.org_name", "Important"}).Draw(g.t, "labelmatch")}}
 		} else {
 			a["labels"] = []M{ref(l, "uuid", "name")}
